@@ -678,8 +678,8 @@ FAMILIES['sysm'] = gen_sysm
 
 def gen_sysi(rng, idx, big=False):
     """Implementation only: assets that construct further assets WHILE the first simulate call is
-    initialising the registered assets (and again between runs); every asset must end up initialised
-    exactly once."""
+    initialising the registered assets (and again between runs), and a user's ResourceManager whose
+    start-up hook constructs assets; every asset must end up initialised exactly once."""
     L = [['scenario', str(idx)], ['S', 'new']]
     classes = ['handler', 'processor', 'sink', 'buffer', 'source', 'maint']
     nmin = 0          # a lower bound of the number of assets that certainly exist
@@ -712,6 +712,10 @@ def gen_sysi(rng, idx, big=False):
     L.append(['S', 'simulate', '0'])
     L.append(['S', 'counts'])
     L.append(['end'])
+    if rng.random() < 0.4:
+        # the other start-up hook of the first simulate call: the initialize() of a user's ResourceManager
+        # constructs assets (drawn last: the scenarios are otherwise the ones generated before this was added)
+        L[1] = ['S', 'newrm', str(rng.randint(1, 3)), str(rng.choice([1, 1, 2]))]
     return L
 
 
